@@ -33,6 +33,7 @@
 from __future__ import annotations
 
 import json
+import os
 import re
 from concurrent.futures import ThreadPoolExecutor
 
@@ -46,7 +47,7 @@ import translate_guards as tg
 PROP = "C13"
 RUNNER = VERIF / "harness" / "c13_run.py"
 TRACER = VERIF / "harness" / "c14_run.py"
-STRESS_ALARM = 10       # seconds; the size-parameterised inputs of c13_gen.stress take well under 2 s each on the unchanged tree
+STRESS_ALARM = 10       # seconds (quick tier: 5); the size-parameterised inputs of c13_gen.stress take well under 2 s each on the unchanged tree
 BASELINE = VERIF / "harness" / "c13_guards_baseline.json"
 KNOWN_SITES = VERIF / "harness" / "c13_known_sites.json"          # finding id -> failing expressions of its crash sites
 PROPOSED = VERIF / "reports" / "C13-known-findings-5.json"        # findings of triage round 5: not yet merged, or repaired by a
@@ -54,13 +55,18 @@ PROPOSED = VERIF / "reports" / "C13-known-findings-5.json"        # findings of 
 
 
 def known_findings():
-    """listed findings of C13 (+ the proposals of round 1 until the integrator has merged them), each with the list of
+    """listed findings of C13 (+ the proposals of triage round 5 until the integrator has merged them), each with the list of
     site expressions it covers (None = no refinement recorded: the whole (file, function, exception) is covered)"""
     refine = json.loads(KNOWN_SITES.read_text()) if KNOWN_SITES.exists() else {}
     listed = list(known_for(PROP))
     ids = {f["id"] for f in listed}
-    if PROPOSED.exists():
-        listed += [f for f in json.loads(PROPOSED.read_text()) if f.get("property") == PROP and f["id"] not in ids]
+    # VERIF_C13_NO_PROPOSED=1: judge a tree that already contains the round-5 patches (the state after the integrator's commit):
+    # only the proposals WITHOUT `repaired_by` (the findings that stay) are read
+    proposals = json.loads(PROPOSED.read_text()) if PROPOSED.exists() else []
+    if os.environ.get("VERIF_C13_NO_PROPOSED"):
+        proposals = [f for f in proposals if "repaired_by" not in f]
+    if proposals:
+        listed += [f for f in proposals if f.get("property") == PROP and f["id"] not in ids]
     out = []
     for f in listed:
         m = f.get("match", {})
@@ -218,20 +224,23 @@ def main(tier: str) -> int:
         # every token kind (and in each macro name of its header) without `;`
         for op, i, m in head_end_mutants(c["src"], c.get("span"), macro_names(c["header"])):
             k = (m, c["header"], c["pack_format"])
+            if tier == "quick" and op.startswith("end-append-nl"):
+                continue
             if k not in seen:
                 seen.add(k)
-                cell = ("head5", ctx[i][0], ctx[i][3]) if op.startswith("head") else ("end5", ctx[i][3])
+                cell = ("head5", ctx[i][3]) if op.startswith("head") else ("end5", ctx[i][3])
                 allm.append((c["name"], op, cell, dict(src=m, header=c["header"], pack_format=c["pack_format"])))
         if c["header"]:
             ctx = contexts(c["header"])
-            for op, i, m in mutants(c["header"], c.get("header_span")):
+            for op, i, m in (mutants(c["header"], c.get("header_span"))
+                             if not (tier == "quick" and c.get("quick_skip_header_tokens")) else ()):
                 k = (c["src"], m, c["pack_format"])
                 if k not in seen:
                     seen.add(k)
                     allm.append((c["name"], "header:" + op, ("header",) + ctx[i], dict(src=c["src"], header=m, pack_format=c["pack_format"])))
             # round 5: the header is line-oriented: its neighbourhood per LINE
             hlines = c["header"].split("\n")
-            for op, n_, m in header_line_mutants(c["header"]):
+            for op, n_, m in header_line_mutants(c["header"], c.get("header_first_line", 0)):
                 k = (c["src"], m, c["pack_format"])
                 if k not in seen:
                     seen.add(k)
@@ -272,7 +281,7 @@ def main(tier: str) -> int:
             k = (job["src"], job["header"])
             if k not in gseen:
                 gseen.add(k)
-                if st == "builtin_matrix":
+                if st in ("builtin_matrix", "arithmetic"):
                     job = dict(job, alarm=3)      # thousands of numeric arguments: a count of 2^31 is a hang within 3 s as well
                 gen.append((st, cell, job))
     gen_run = {}
@@ -287,7 +296,8 @@ def main(tier: str) -> int:
     # its alarm MUST come back as a timeout, otherwise no hang of the compiler would be seen either
     stress = c13_gen.stress(tier)
     sjobs = [j for _, _, j in stress]
-    sout = run_mutants(sjobs, chunk=4, alarm=STRESS_ALARM, times=True)
+    stress_alarm = STRESS_ALARM if tier != "quick" else 5
+    sout = run_mutants(sjobs, chunk=4, alarm=stress_alarm, times=True)
     stress_times = {}
     for (sname, size, _), o in zip(stress, sout):
         stress_times.setdefault(sname, []).append([size, o[0], o[-1]])
@@ -310,7 +320,7 @@ def main(tier: str) -> int:
     n_plain = len(jobs) - len(sjobs)
 
     def alone(ns):
-        return run_mutants([dict(jobs[n], alarm=STRESS_ALARM if n >= n_plain else jobs[n].get("alarm", 5)) for n in ns], chunk=1)
+        return run_mutants([dict(jobs[n], alarm=stress_alarm if n >= n_plain else jobs[n].get("alarm", 5)) for n in ns], chunk=1)
 
     again = alone(list(first.values())) if first else []
     reruns = len(again)
@@ -406,7 +416,7 @@ def main(tier: str) -> int:
                            string_alphabet=STRING_ALPHABET, head_symbols=HEAD_SYMBOLS, end_tokens=END_TOKENS),
         phases_s=phases, timeouts_rerun_alone=reruns,
         generated_streams=dict(total=gen_total, run=gen_run, builtins_in_registry=len(registry), stress_programs=len(stress),
-                               stress_alarm_s=STRESS_ALARM, stress_times={k: v for k, v in sorted(stress_times.items())},
+                               stress_alarm_s=stress_alarm, stress_times={k: v for k, v in sorted(stress_times.items())},
                                hang_detector_canary=canary[0][0]),
         outcome_classes=classes,
         crash_sites={f"{k[0]}:{k[1]}:{k[2]}:{k[3]}": v[3] for k, v in sorted(sites.items())},
